@@ -93,6 +93,7 @@ class Spec:
 
     def __init__(self, tree, maps, cwd=B):
         self.tree = tree
+        self.cwd = cwd
         self.maps = []       # (virtual prefix as tuple of segments, lexically normal absolute root, root was given relative)
         for phys, virt in maps:
             p = cleanse_keep(phys)
@@ -172,7 +173,13 @@ class Spec:
         elif curp != "" or curv != "":
             return "unspecified"
         L = self.lexical(vsegs(c))
-        return {self.virtual(L) if L is not None else None}
+        v = self.virtual(L) if L is not None else None
+        if v is None and any(rel for _, r, rel in self.maps):
+            # a directory mapped by a path relative to the working directory: a request that spells the same relative path may be
+            # recognised as a physical one (observed, not demanded: the 'may' part of physical(), as for absolute requests)
+            must, may = self.physical(self.cwd + "/" + c)
+            return {None} | {x for x in may if x is not None}
+        return {v}
 
     def is_node_path(self, curv):
         segs = tuple(vsegs(curv))
@@ -546,6 +553,138 @@ def gen_cases(rng, add, scale):
             add(rng.choice(["info", "info", "loadFile"]), t, setup, req)
 
 
+# ---------------------------------------------------------------- script operators executed by code that lies in a file
+# A path given by a script resolves through the mapped prefixes and nothing else: where the calling code lies has no say
+# (mechanism: the operators resolve with an empty current path; model: op_* = get_info t req [] []).  The family runs every
+# operator from code lying at every kind of place of the tree - the directory a prefix maps, a subdirectory of it, a directory
+# under a deeper / another mapping, an unmapped directory, the scratch directory - reached by every route that gives code the path
+# of a file, with requests built from what lies NEXT TO the calling file (siblings, files below it, files reached by dir-ups).
+WORKER = ('VLAUNCHED = true; if (count VHOPS > 0) then { execVM (VHOPS deleteAt 0) } else { '
+          'if (VOP == "loadFile") then { VRES = loadFile VREQ }; if (VOP == "preprocessFile") then { VRES = preprocessFile VREQ }; '
+          'if (VOP == "preprocessFileLineNumbers") then { VRES = preprocessFileLineNumbers VREQ }; '
+          'if (VOP == "execVM") then { VRES = "ran"; execVM VREQ } };')
+WNAME = "w_.sqf"
+OPS = ["loadFile", "preprocessFile", "preprocessFileLineNumbers", "execVM"]
+
+
+def place_kind(spec, d):
+    """where a directory lies with respect to the mappings"""
+    roots = [r for v, r, rel in spec.maps]
+    if d in roots:
+        return "the directory a prefix maps"
+    under = [r for r in roots if r != "/" and (d + "/").startswith(r + "/")]
+    if len(under) > 1:
+        return "below nested mapped directories"
+    if under:
+        return "a subdirectory of a mapped directory"
+    if any((r + "/").startswith(d + "/") for r in roots):
+        return "above a mapped directory"
+    return "an unmapped directory"
+
+
+def placed_requests(rng, tree, maps, cwd, d, n):
+    """requests an operator in a file of directory d is given: mostly relative ones for which something lies next to the file"""
+    files = sorted(f for f in tree.files if not f.endswith("/" + WNAME))
+    near = [f for f in files if f.startswith(d + "/")] + [f for f in files if posixpath.dirname(f) == posixpath.dirname(d)]
+    out = []
+    for _ in range(n):
+        k = rng.random()
+        if k < 0.45 and near:            # the name a file has as seen from the calling file
+            req = posixpath.relpath(rng.choice(near), d)
+        elif k < 0.55 and files:         # ... any file of the tree (dir-ups through the scratch directory)
+            req = posixpath.relpath(rng.choice(files), d)
+        elif k < 0.70 and files:         # the name a file has below a mapped prefix, without the leading separator
+            f = rng.choice(near or files)
+            vs = virt_of(maps, f, cwd)
+            req = rng.choice(vs).lstrip("/") if vs else posixpath.basename(f)
+        elif k < 0.85:
+            req = rand_relative(rng)
+        else:                            # absolute ones: the calling file has even less to say
+            req = rand_request(rng, tree, maps)
+        if rng.random() < 0.25:
+            req = req.replace("/", "\\")
+        elif rng.random() < 0.15:
+            req = mutate(rng, req)
+        if cli_ok_req(req) and "|" not in req:
+            out.append(req)
+    return out
+
+
+def placed_config(rng, cwd=B):
+    """a tree with a worker file in some directories of every kind, and mappings that put them at different depths"""
+    t = rand_tree(rng)
+    maps = rand_maps(rng)
+    if rng.random() < 0.5:
+        maps = [(B + "/r1", rng.choice(["/x", "/", "/x", "/x/y"]))] + maps
+    if rng.random() < 0.35:
+        maps = maps + [(B + rng.choice(["/r1/sub", "/r2/y", "/r1/sub/deep"]), rng.choice(["/x/sub", "/q", "/", "/x/y/z/w"]))]
+    return t, maps
+
+
+def placed_places(rng, spec, tree, n):
+    dirs = sorted(d for d in tree.dirs if d.startswith(B))
+    by = {}
+    for d in dirs:
+        by.setdefault(place_kind(spec, d), []).append(d)
+    out = []
+    kinds = sorted(by)
+    rng.shuffle(kinds)
+    # one directory of as many kinds as there are, subdirectories of mapped directories first: that is where neighbours differ
+    kinds.sort(key=lambda k: 0 if "sub" in k or "nested" in k else 1)
+    for k in kinds[:n]:
+        out.append(rng.choice(by[k]))
+    while len(out) < n and len(out) < len(dirs):
+        d = rng.choice(dirs)
+        if d not in out:
+            out.append(d)
+    return out
+
+
+def launches(spec, maps, worker, cwd=B):
+    """the requests that name the worker file (judged by the property: they resolve to it and nothing else)"""
+    return [q for q in virt_of(maps, worker, cwd) + [worker] if spec.resolve(q) == {worker}]
+
+
+def gen_placed(rng, add, scale, stats):
+    ps = stats["placed"]
+    for i in range(170 * scale):
+        t, maps = placed_config(rng)
+        setup = [("M", p, v) for p, v in maps]
+        spec = Spec(t, maps)
+        places = placed_places(rng, spec, t, 3)
+        reqs = {d: placed_requests(rng, t, maps, B, d, 3) for d in places}      # before the workers exist: no request names one
+        for d in places:
+            t.add_file(d + "/" + WNAME, WORKER)
+        for d in places:
+            worker = d + "/" + WNAME
+            pk = place_kind(spec, d)
+            how = launches(spec, maps, worker)
+            for req in reqs[d]:
+                op = rng.choice(OPS)
+                add(op, t, setup, req, note="placed-base")                       # the same request from code that lies in no file
+                routes = ["file", "line"] + (["execVM", "compile", "include"] if how else [])
+                for route in rng.sample(routes, 2):
+                    curp, curv = worker, ""
+                    if route in ("file", "line"):
+                        k = rng.random()
+                        if k < 0.10:
+                            curp = posixpath.relpath(worker, B)                  # named relative to the working directory
+                        elif k < 0.16:
+                            curp = d + "/ghost.sqf"                              # a file that is not there (anymore)
+                        elif k < 0.20:
+                            curp = worker.replace("/", "\\")
+                    else:
+                        curv = rng.choice(how)
+                        others = [x for x in places if x != d and launches(spec, maps, x + "/" + WNAME)]
+                        if route == "execVM" and others and rng.random() < 0.3:  # started by a worker lying elsewhere
+                            curv = rng.choice(launches(spec, maps, rng.choice(others) + "/" + WNAME)) + "|" + curv
+                        if rng.random() < 0.3:
+                            curv = curv.replace("/", "\\")
+                    add(op + "@" + route, t, setup, req, curp, curv, note="placed: " + pk)
+                    ps["place: " + pk] = ps.get("place: " + pk, 0) + 1
+                    ps["route: " + route] = ps.get("route: " + route, 0) + 1
+
+
 # ---------------------------------------------------------------- verdicts
 BAD = ("CRASH", "TIMEOUT", "OOM", "EXCEPTION", "EXIT", "HARNESS", "HARNESS-LOST", "LOADFAIL", "BADKIND", "BADLINE")
 
@@ -568,8 +707,8 @@ def files_of_payload(p):
 
 
 def judge(run, c, il, ml, stats):
-    kind = c["kind"]
-    stats["kinds"][kind] = stats["kinds"].get(kind, 0) + 1
+    kind, _, route = c["kind"].partition("@")       # <operator>@<route>: the operator run by code that lies in the file curp
+    stats["kinds"][c["kind"]] = stats["kinds"].get(c["kind"], 0) + 1
     parts = ml.split("\t||\t")
     if kind == "fs":
         if il != ml:
@@ -583,7 +722,7 @@ def judge(run, c, il, ml, stats):
         run.violation("model driver produced no result", {"kind": kind, "req": c["req"], "model": ml, "broken": "driver"}, found_input=False)
         return
     rep_l, asis_l = parts
-    rep = {"kind": kind, "req": c["req"], "curp": c["curp"], "curv": c["curv"], "maps": c["maps"],
+    rep = {"kind": c["kind"], "req": c["req"], "curp": c["curp"], "curv": c["curv"], "maps": c["maps"],
            "impl": sample_text(il), "model_repaired": sample_text(rep_l), "model_as_is": sample_text(asis_l), "note": c["note"],
            "files": c["tree"].files, "dirs": sorted(c["tree"].dirs), "setup": [list(x) for x in c["setup"]],
            "impl_line": il, "model_line": ml}
@@ -596,6 +735,8 @@ def judge(run, c, il, ml, stats):
         why = "the request made the implementation fail: " + " ".join(f[:2])
     elif f[0] in ("OOM", "EXCEPTION"):
         why = "the operation ended in a C++ exception (%s) instead of a result" % f[0]
+    elif f[0] == "NOLAUNCH":
+        why = "the code in %s was not reached through %r (a request the property resolves to that file)" % (c["curp"], c["curv"])
     spec = Spec(c["tree"], c["maps"]) if c["tree"] is not None else None
     got = "n/a"          # file the implementation acted on
     if why is None and spec is not None:
@@ -640,7 +781,8 @@ def judge(run, c, il, ml, stats):
                 if have != want:
                     why = "an entry of a mounted PBO is not readable under the archive's prefix: got %r, stored %r" % (have, want)
         if why is None and got != "n/a" and not has_pbo:
-            exp = spec.resolve(c["req"], c["curp"], c["curv"])
+            # (a script operator resolves with no current file, wherever the code that executes it lies)
+            exp = spec.resolve(c["req"], c["curp"], c["curv"]) if kind == "info" else spec.resolve(c["req"])
             if got is not None and got != "<other text>" and not spec.inside(got):
                 why = "a file outside every mapped directory was read: " + got
             elif exp != "unspecified":
@@ -681,6 +823,18 @@ def judge(run, c, il, ml, stats):
                     why = "execVM did not run the code of the file: afterwards %s, the file's code gives %s" % (gotp, expp)
                 else:
                     why = "%s gave %s, the property gives %s" % (kind, str(gotp)[:200], str(expp)[:200])
+
+    if route:
+        # the same operator on the same request from code that lies in no file (the ordinary case of this run)
+        plain = stats["plain"].get((id(c["tree"]), kind, c["req"]))
+        cut = (lambda l: l.split("\t")[:2]) if kind == "execVM" else (lambda l: l)
+        if why is None and plain is not None and f[0] != "NOLAUNCH" and cut(plain) != cut(il):
+            why = "the answer differs from the one the same request gets from code that lies in no file (%s)" % sample_text(plain)
+            rep["impl_from_no_file"] = plain
+        if why is not None:
+            why = "%s %r executed by code lying in %s (%s; reached by: %s%s): %s" % (
+                kind, c["req"], c["curp"], c["note"].replace("placed: ", ""), route, (" " + repr(c["curv"])) if c["curv"] else "", why)
+        stats["placed"]["judged"] = stats["placed"].get("judged", 0) + 1
 
     # ---- 2. correspondence with the mechanism model
     ci = canon_impl(kind, il)
@@ -891,6 +1045,52 @@ def gen_cli_configs(rng, scale):
     return cfgs
 
 
+def cli_code(requests):
+    """the text of a script that makes the requests one after the other and reports every answer in a marked diag_log line"""
+    code = []
+    for k, (op, req) in enumerate(requests):
+        q = '"' + req.replace('"', '""') + '"'
+        if op == "execVM":
+            # the script started by execVM runs after this one; the one spawned behind it reports what it left
+            code.append('RES = "<unset>"; execVM %s; diag_log ["@E",%d]; %d spawn {diag_log ["@R",_this,toArray RES]; RES = "<unset>"};' % (q, k, k))
+        else:
+            code.append('diag_log ["@R",%d,toArray (%s %s)];' % (k, op, q))
+    return " ".join(code)
+
+
+def gen_cli_script_configs(rng, scale):
+    """the requests of a configuration made by a script FILE of the tree, started through execVM / compile preprocessFileLineNumbers /
+    #include from the --sqf text, or named on the command line (--input-sqf, absolute and relative to the working directory)"""
+    cfgs = []
+    for i in range(36 * scale):
+        t, vargs = placed_config(rng)
+        vargs = [(p, v) for p, v in vargs if v != ""][:4] or [(B + "/r1", "/x")]       # ("DIR|" has no virtual side: skipped by the CLI)
+        cwd = rng.choice(CLI_CWD[:6])
+        t.add_dir(cwd)
+        noexec = rng.random() < 0.4
+        maps = vargs + ([] if noexec else [(cwd, "/")])
+        spec = Spec(t, maps, cwd)
+        runs = []
+        places = placed_places(rng, spec, t, 2)
+        reqs_of = {d: [(rng.choice(CLI_OPS), q) for q in placed_requests(rng, t, maps, cwd, d, 6)] for d in places}
+        for d in places:                         # (all of them before a request that starts one is chosen: one may hide the other)
+            if reqs_of[d]:
+                t.add_file(d + "/" + WNAME, cli_code(reqs_of[d]))
+        for d in places:
+            worker, reqs = d + "/" + WNAME, reqs_of[d]
+            if not reqs:
+                continue
+            hows = [("input-sqf", worker), ("input-sqf", posixpath.relpath(worker, cwd))]
+            for q in launches(spec, maps, worker, cwd):
+                hows += [("execVM", q), ("compile", q), ("include", q)]
+            how, arg = rng.choice(hows)
+            if how != "input-sqf" and rng.random() < 0.3:
+                arg = arg.replace("/", "\\")
+            runs.append(dict(route="script", requests=reqs, top=worker, top_arg=arg, how=how, place=place_kind(spec, d)))
+        cfgs.append(dict(tree=t, vargs=vargs, cwd=cwd, noexec=noexec, runs=runs))
+    return cfgs
+
+
 def cli_exec(exe, cfg):
     """realise the tree below a fresh directory of the same depth as B, run the processes of the configuration in it"""
     base = tempfile.mkdtemp(prefix="vvfc", dir="/tmp")
@@ -913,15 +1113,18 @@ def cli_exec(exe, cfg):
             for ph, vi in cfg["vargs"]:
                 cmd += ["-v", ph + "|" + vi]
             if r["route"] == "sqf":
-                code = []
-                for k, (op, req) in enumerate(r["requests"]):
-                    q = '"' + req.replace('"', '""') + '"'
-                    if op == "execVM":
-                        # the script started by execVM runs after this one; the one spawned behind it reports what it left
-                        code.append('RES = "<unset>"; execVM %s; diag_log ["@E",%d]; %d spawn {diag_log ["@R",_this,toArray RES]; RES = "<unset>"};' % (q, k, k))
-                    else:
-                        code.append('diag_log ["@R",%d,toArray (%s %s)];' % (k, op, q))
-                cmd += ["--sqf", " ".join(code)]
+                cmd += ["--sqf", cli_code(r["requests"])]
+            elif r["route"] == "script":
+                # the requests are made by the file r["top"] of the tree (cli_code(requests) is its text); r["how"] says how it is started
+                q = '"' + r["top_arg"] + '"'
+                if r["how"] == "execVM":
+                    cmd += ["--sqf", "execVM " + q]
+                elif r["how"] == "compile":
+                    cmd += ["--sqf", "call compile preprocessFileLineNumbers " + q]
+                elif r["how"] == "include":
+                    cmd += ["--sqf", "\n#include " + q + "\n"]
+                else:
+                    cmd += ["--input-sqf", r["top_arg"]]
             elif r["route"] == "E":
                 cmd += ["-E", r["top_arg"]]
             else:
@@ -990,11 +1193,13 @@ def cli_judge(run, cfg, stats):
 
         def report(k, why, exp, got):
             op, req = r["requests"][k]
+            if r["route"] == "script":
+                why = "executed by the script %s (%s; started by %s %r): %s" % (r["top"], r["place"], r["how"], r["top_arg"], why)
             run.violation("sqfvm %s(cwd %s): %s %r: %s" % (" ".join("-v '%s|%s'" % (p, v) for p, v in cfg["vargs"]) +
                                                              (" --no-load-executable-dir " if cfg["noexec"] else " "), cwd, op, req, why),
                           {"kind": "climount", "files": t.files, "dirs": sorted(t.dirs), "vargs": [list(x) for x in cfg["vargs"]], "cwd": cwd,
                            "noexec": cfg["noexec"], "route": r["route"], "requests": [list(x) for x in r["requests"]], "top": r["top"],
-                           "top_arg": r["top_arg"], "position": k, "request": [op, req], "mappings_in_effect": [list(x) for x in maps],
+                           "top_arg": r["top_arg"], "how": r.get("how", ""), "place": r.get("place", ""), "position": k, "request": [op, req], "mappings_in_effect": [list(x) for x in maps],
                            "expected": str(exp)[:400], "got": str(got)[:400], "cmd": r["cmd"], "exit": r["rc"], "output": out[-1500:]})
 
         def contained(k, lines):
@@ -1016,7 +1221,10 @@ def cli_judge(run, cfg, stats):
         if r["rc"] == 124 or "[timeout]" in out[-20:]:
             report(0, "the process did not end", "a result", "timeout")
             continue
-        if r["route"] == "sqf":
+        if r["route"] in ("sqf", "script"):
+            if r["route"] == "script":
+                cs["script: " + r["how"]] = cs.get("script: " + r["how"], 0) + 1
+                cs["script in " + r["place"]] = cs.get("script in " + r["place"], 0) + 1
             res = cli_parse(out, r.get("base", ""))
             for k, (op, req) in enumerate(r["requests"]):
                 cs["resolutions"] += 1
@@ -1101,10 +1309,11 @@ def cli_mount_cases(run, stats, scale, replay=None):
             t.add_file(p, c)
         cfgs = [dict(tree=t, vargs=[tuple(x) for x in replay["vargs"]], cwd=replay["cwd"], noexec=replay["noexec"],
                      runs=[dict(route=replay["route"], requests=[tuple(x) for x in replay["requests"]], top=replay.get("top", ""),
-                                top_arg=replay.get("top_arg", ""))])]
+                                top_arg=replay.get("top_arg", ""), how=replay.get("how", ""), place=replay.get("place", ""))])]
     else:
         # a generator of its own: the cases of the other families do not move
         cfgs = gen_cli_configs(random.Random(run.seed * 7919 + 1601), scale)
+        cfgs += gen_cli_script_configs(random.Random(run.seed * 15485863 + 16), scale)
     from concurrent.futures import ThreadPoolExecutor
     with ThreadPoolExecutor(max(2, min(V.NPROC, 8))) as ex:
         done = list(ex.map(lambda c: cli_exec(exe, c), cfgs))
@@ -1123,6 +1332,7 @@ def main(replay=None):
     scale = 10 if thorough else 1
 
     cases = []
+    stats = {"kinds": {}, "nontrivial": set(), "samples": [], "ub_unobserved": 0, "as_is_only": {}, "placed": {}, "plain": {}}
 
     def add(kind, tree, setup, req, curp="", curv="", note=""):
         maps = [(s[1], s[2]) for s in setup if s[0] == "M"]
@@ -1140,18 +1350,28 @@ def main(replay=None):
             add("fs", Tree(), [], r["req"], r.get("curp", ""))
     else:
         gen_cases(rng, add, scale)
+        # a generator of its own: the cases of the other families do not move
+        gen_placed(random.Random(run.seed * 104729 + 16), add, scale, stats)
 
+    import time
+    t0 = time.time()
     lines = [c["line"] for c in cases]
+    placed_n = sum(1 for c in cases if "@" in c["kind"] or c["note"] == "placed-base")
     rc, impl, err = V.run_lines_parallel([himpl], lines, timeout=3000)
+    t1 = time.time()
     # the model has no memory either: a sequence is judged against the single requests (implementation and model)
-    mlines = [(line("fs", Tree(), [], "a", "b") if c["kind"] == "infoseq" else c["line"]) for c in cases]
+    # (an operator executed by code that lies in a file: the model's operators have no calling file - op_* = get_info t req [] [])
+    mlines = [(line("fs", Tree(), [], "a", "b") if c["kind"] == "infoseq" else
+               line(c["kind"].partition("@")[0], c["tree"], c["setup"], c["req"]) if "@" in c["kind"] else c["line"]) for c in cases]
     rc2, model, err2 = V.run_lines_parallel([drv], mlines, timeout=3000)
     single = {}
     for c, il in zip(cases, impl):
         if c["kind"] == "info":
             single[(c["tree"].field(), str(c["setup"]), c["req"], c["curp"], c["curv"])] = il
 
-    stats = {"kinds": {}, "nontrivial": set(), "samples": [], "ub_unobserved": 0, "as_is_only": {}}
+    for c, il in zip(cases, impl):
+        if c["note"] == "placed-base":
+            stats["plain"][(id(c["tree"]), c["kind"], c["req"])] = il
     for c, il, ml in zip(cases, impl, model):
         if c["kind"] == "infoseq":
             stats["kinds"]["infoseq"] = stats["kinds"].get("infoseq", 0) + 1
@@ -1176,9 +1396,12 @@ def main(replay=None):
                 stats["nontrivial"].add(("infoseq", str(c["maps"]), c["note"]))
             continue
         judge(run, c, il, ml, stats)
+    t2 = time.time()
     cli_cases(run, stats)
     if cli_replay is not None or not replay:
         cli_mount_cases(run, stats, scale, cli_replay)
+    run.cov["phase_seconds"] = {"implementation lines": round(t1 - t0, 1), "model lines and verdicts": round(t2 - t1, 1),
+                                "command line processes": round(time.time() - t2, 1), "lines of the placed-operator family": placed_n}
 
     for p in problems:
         run.violation("proof obligation not discharged: " + p, {"broken": p, "theorems": run.cov["theorems"]}, found_input=False)
@@ -1198,7 +1421,26 @@ def main(replay=None):
                        "working directory is mapped on / behind the -v mappings); requests of the same generators through loadFile, "
                        "preprocessFile, preprocessFileLineNumbers, execVM (8 per --sqf script), `-E file` (#include from a file that has a "
                        "physical path only) and #include in --sqf text; every answer judged by the property alone (class Spec on the "
-                       "mappings the command line names: deepest prefix, first directory holding the file, nothing outside)")
+                       "mappings the command line names: deepest prefix, first directory holding the file, nothing outside). "
+                       "Operators executed by code that lies in a file (kinds <operator>@<route>): 170 trees/mapping lists, in each a worker "
+                       "file in 3 directories of different standing (the directory a prefix maps, a subdirectory of a mapped directory, below "
+                       "nested mappings, above a mapped directory, unmapped), 3 requests per place built from what lies next to the calling "
+                       "file (names of siblings / files below it / files reached by dir-ups as seen from the file, names below a mapped "
+                       "prefix without the leading separator, the usual relative and absolute requests; backslashes, mutations), each through "
+                       "one of loadFile / preprocessFile / preprocessFileLineNumbers / execVM from code that got its file by 2 of the routes: "
+                       "parsed as that file (also named relative to the working directory, with backslashes, a file that is not there), a "
+                       "#line directive, execVM of the file (also handed on by a worker lying elsewhere), call compile "
+                       "preprocessFileLineNumbers of it, #include of it; plus 36 command-line configurations with 2 script files each "
+                       "(--input-sqf absolute/relative, execVM / compile / #include from --sqf). Oracle: the property read on the mappings "
+                       "(class Spec with NO current file: a script operator resolves through the mapped prefixes only), the extracted "
+                       "model's op_* (which have no calling file: get_info t req [] []), and - implementation only - the answer the same "
+                       "request gets in the same run from code that lies in no file")
+    run.cov["operators_from_files"] = stats["placed"]
+    by = {}
+    for what, rp, found in run.violations:          # (the printed list is capped at 10 lines: what fired, by kind of case)
+        k = str(rp.get("kind", "?")) + ("/" + rp["route"] if rp.get("kind") == "climount" and rp.get("route") else "")
+        by[k] = by.get(k, 0) + 1
+    run.cov["violations_by_kind_of_case"] = by
     run.cov["cli_mount"] = stats.get("climount", {})
     run.cov["input_distribution"] = stats["kinds"]
     run.cov["samples"] = stats["samples"]
